@@ -224,6 +224,40 @@ PROPS['C16'] = dict(
     level_note="Trusted: Coq kernel + vm_compute; hand-written byte-level models; harness. Axioms: none.",
 )
 
+BRANCH_NAMES['mercreport'] = ['rounds', 'reported', 'declined', 'errors']
+MERC_RULE = ("mercreport: threaded histories (2..10 rounds) of MercuryPlugin.Report for v1..v4 built through the real factories with a recording "
+             "codec; f in 1..3, 2f+1..3f+1 observations, up to f faulty ones (extreme prices +-2^k, wrong-length int192 bytes, invalid flags, "
+             "timestamps 0 / 2^32-1, forked/duplicate/short-hash/negative blocks, undecodable bytes), honest nodes lagging, coordinated splits "
+             "of the max-finalized votes between extreme candidates; on-chain ranges incl. negative min and 2^191-1, windows 0..2^32-1, "
+             "timestamps near 2^32; codec modes ok/empty/too-long/error; previous report threaded / absent / unreadable / at 2^32-1; "
+             "directed equal-count and unequal-split vote tables; each round re-evaluated on fresh plugins. Distinct by SHA-1.")
+PROPS['C07'] = dict(
+    level='proof', projections=[dict(name='mercreport', spec_index=1, n_quick=120, n_thorough=3000)], rule=MERC_RULE,
+    explanation="Theorems C07_* prove for all configurations, previous reports and observation lists that whenever the modelled Report returns "
+                "shouldReport=true the fields satisfy every invariant of the property (price ranges, v3 bid<=mid<=ask, fees in [0, MaxInt192], "
+                "validFrom <= ts <= expiresAt = ts + window <= 2^32-1, v1 block range and 32-byte hash, v4 status with f+1 votes, report "
+                "non-empty and within the maximum length), and otherwise it errs or declines without fields. The model is compared with the "
+                "four real plugins round by round; the invariants are also evaluated on the fields the real plugins handed to the codec.",
+    assumptions=["the report codec is any function; only the length of its output matters for these invariants"],
+    level_text="Coq theorems over the model of Mercury v1-v4 Report (parse, consensus, validateReport) for all inputs; tied to the Go plugins by "
+               "differential testing through the real factories.",
+    level_note="Trusted: Coq kernel + vm_compute; hand-written model of mercury/v*/mercury.go and validation.go; protobuf decoding of the "
+               "observation messages is taken at message level. Axioms: none.",
+)
+PROPS['C09'] = dict(
+    level='proof', projections=[dict(name='mercreport', spec_index=2, n_quick=120, n_thorough=3000)], rule=MERC_RULE,
+    explanation="Theorems C09_* prove: with a previous report the start is exactly one past its end without wrap (B2) and not after the new "
+                "end; over any threaded history the windows of consecutive emitted reports are adjacent and disjoint; declining carries no "
+                "fields. The bootstrap start (one past the greatest value with f+1 votes, or the timestamp when negative; overflow repaired, "
+                "B8) is checked on the implementation by the predicate; the model agrees with the plugins on every generated round.",
+    assumptions=["codec_consistent: the codec reads back the timestamp / block number a report was built with",
+                 "observation timestamps are uint32 (>= 0)"],
+    level_text="Coq theorems about chaining of the modelled Mercury reports over all threaded histories; tied to the Go plugins by differential "
+               "testing with a faithful recording codec.",
+    level_note="Trusted: Coq kernel + vm_compute; hand-written model; external report codec represented by what the plugin uses of it. Axioms: none.",
+)
+PROPS['C01']['projections'].append(dict(name='mercreport', spec_index=3, n_quick=120, n_thorough=3000))
+
 
 def load_known_findings(root):
     p = os.path.join(root, 'known_findings.jsonl')
